@@ -80,6 +80,9 @@ module Asis = struct
 end
 
 let threshold_small_exp = zi 38
+(* error contract assumed for ln / exp / ln_base at the work precision, in units of the last place (ln_base of a
+   power of two is a product, hence more than one unit) *)
+let k_contract = zi 4
 
 let judge op args got =
   let arg i = List.nth args i in
@@ -183,14 +186,24 @@ let judge op args got =
                  | CDone (s', e', f') -> " asis=" ^ (if Zar.equal s' rs && Zar.equal e' re && flag_tok f' = rf then "same" else "diff")
                  | _ -> "") in
              if full then pass ~extra:("cls=" ^ cls ^ " path=" ^ route ^ fid) ()
-             else if route = "large" && Zar.leq (dlen nb rs) (Zar.succ rp)
-                     && (Zar.lt rp (zi 16) || check_within_ulp nb (Zar.pred rp) x rs re) then
-               (* open finding: the ln/exp route is not faithful; no as-is model of the series exists,
-                  the class is its input route + an answer of the right shape inside the measured
-                  envelope (less than NewB ulps = one ulp of precision p-1 off, when the target precision is >= 16 digits;
-                  observed: up to 1 ulp + a double-rounding epsilon) *)
-               { (known "convert_base_large_exp_not_faithful" "contract") with
-                 extra = "want=contract cls=large-" ^ (if check_within_ulp nb rp x rs re then "within-1ulp" else "off-by-1ulp-or-more") ^ " path=" ^ route }
+             else if route = "large" && Zar.leq (dlen nb rs) (Zar.succ rp) then begin
+               (* open finding: the ln/exp route is not faithful.  No as-is model of the series exists; the class is
+                  the input route + an answer of the right shape inside the accuracy the STRUCTURE of the route
+                  guarantees when ln and exp err by at most k_contract units in the last place of the work precision
+                  (Float/LargeExpRoute.v convert_large_route_error, decided by large_route_check,
+                  large_route_check_sound); where the theorem guarantees nothing (precision too small for the
+                  size of the exponent: None) any answer of the right shape is in the class *)
+               let (n, dv) = (match x with XRat (n, d) -> (n, d) | _ -> (Zar.zero, Zar.one)) in
+               let within = if check_within_ulp nb rp x rs re then "within-1ulp" else "off-by-1ulp-or-more" in
+               match large_route_check k_contract b nb rp e n dv rs re with
+               | Some true ->
+                   { (known "convert_base_large_exp_not_faithful" "contract") with
+                     extra = "want=contract cls=large-" ^ within ^ " path=large-inside-proved-bound" }
+               | None ->
+                   { (known "convert_base_large_exp_not_faithful" "contract") with
+                     extra = "want=contract cls=large-" ^ within ^ " path=large-no-accuracy-guaranteed" }
+               | Some false -> { v = "fail"; extra = "outside-the-proved-bound-of-the-ln/exp-route cls=" ^ cls ^ " path=" ^ route }
+             end
              else { v = "fail"; extra = "contract-violated cls=" ^ cls ^ " path=" ^ route }
            end
        | "panic" :: cl :: _ when route = "large" && Zar.sign (match fixed_p with Some p -> p | None -> p0) > 0
@@ -207,13 +220,20 @@ let judge op args got =
       let bits = z (arg 2) in
       let mw, ew = if op = "from_f32" || op = "from_f32_repr" then (zi 23, zi 8) else (zi 52, zi 11) in
       let repr = (op = "from_f32_repr" || op = "from_f64_repr") in
+      let asis = from_ieee_asis (if Zar.equal mw (zi 23) then p32 else p64) bits in
+      let fid = " asis=" ^ (match asis, got with
+          | Some ((s, e), p), ("ok" :: gs :: ge :: rest) when gs <> "inf" && gs <> "-inf" ->
+              if Zar.equal (z gs) s && Zar.equal (z ge) e && (repr || rest = [ hx p ]) then "same" else "diff"
+          | None, ("err" :: _) -> "same"
+          | None, ("ok" :: ("inf" | "-inf") :: _) -> "same"
+          | _ -> "diff") in
       (match ieee_decode mw ew bits with
-       | INan -> expect ~nt:false ~extra:"cls=nan" "err OutOfBounds" got
-       | IInf neg -> expect ~nt:false ~extra:"cls=inf" (if repr then (if neg then "ok -inf 0" else "ok inf 0") else (if neg then "ok -inf 0 0" else "ok inf 0 0")) got
+       | INan -> expect ~nt:false ~extra:("cls=nan" ^ fid) "err OutOfBounds" got
+       | IInf neg -> expect ~nt:false ~extra:("cls=inf" ^ fid) (if repr then (if neg then "ok -inf 0" else "ok inf 0") else (if neg then "ok -inf 0 0" else "ok inf 0 0")) got
        | IFinite (_, _) ->
            (match from_ieee_spec mw ew bits with
             | Some ((s, e), p) ->
-                expect ~extra:"cls=finite" (if repr then Printf.sprintf "ok %s %s" (hx s) (hx e) else Printf.sprintf "ok %s %s %s" (hx s) (hx e) (hx p)) got
+                expect ~extra:("cls=finite" ^ fid) (if repr then Printf.sprintf "ok %s %s" (hx s) (hx e) else Printf.sprintf "ok %s %s %s" (hx s) (hx e) (hx p)) got
             | None -> fail "spec"))
   | _ -> fail ("unknown-op-" ^ op)
 
